@@ -555,8 +555,9 @@ func (db *ContractDB) LoadContractFile(file, pkgPath string) {
 				for _, l := range strings.Fields(r) {
 					cur.OnlyLayers[l] = true
 				}
-			case "holds", "releases", "acquires":
-				// acquires <lock> [when <cond>]
+			case "holds", "releases", "acquires", "locks":
+				// acquires <lock> [when <cond>]; locks <lock>: the function takes and releases this lock itself
+				// (a caller that holds it would deadlock on a writer queued in between)
 				var cond *SExpr
 				lockText := r
 				if k := strings.Index(r, " when "); k >= 0 && kw == "acquires" {
